@@ -91,7 +91,7 @@ pub(crate) mod __verif {
         body(0, 0);
     }
 
-    // @obligation name=cs_union_escape props=C12 fn=parse::ClassSet::union_operand kind=bounded bound="class set = 1 symbolic interval + one 1-char string + one 2-char string; operand = a class escape (set of code points) with symbolic contents; probe = symbolic string of length 1 or 2" min_checks=50 w=3 timeout=1500
+    // @obligation name=cs_union_escape props=C12:t fn=parse::ClassSet::union_operand kind=bounded bound="class set = 1 symbolic interval + one 1-char string + one 2-char string; operand = a class escape (set of code points) with symbolic contents; probe = symbolic string of length 1 or 2" min_checks=50 w=3 timeout=1500
     // v-mode class set union with a class escape (set of code points) is the set-theoretic operation on the denoted sets of strings (a 1-character string and
     // the code point are the same member).
     #[kani::proof]
